@@ -162,13 +162,14 @@ package cache
 //@   call SetTimer#0: assert arg_delay == time.Second && arg_key == boxed(rk)
 //@   ensures twSets == old(twSets) + 1
 //@ func clean closure 0
-//@   property C06
+//@   property C06 C12
 //@   flag callbacks_noheap
 //@   ghost at after task#0: te = ret
 //@   ghost at entry: nok = false
 //@   ghost at after nextDelay#0: nok = ret1
 //@   ghost at after nextDelay#0: nd = ret0
 //@   call SetTimer#0: assert arg_key == key && arg_delay == nd && nok && te != nil
+//@   call SetTimer#0: assert arg_value.(delayTask).delay == nd && arg_value.(delayTask).task == value.(delayTask).task
 //@   ensures implies(te != nil && nok, twSets == old(twSets) + 1)
 //@   ensures implies(te == nil, twSets == old(twSets))
 
